@@ -228,12 +228,17 @@ inline void runRoundTrip(Ctx& C) {
   o.nodes = atoi(C.opt("nodes", T ? "4" : "3").c_str());
   o.deepFrom = atoi(C.opt("deepfrom", "64").c_str());
   if (T) o.deep = {100, 200};
+  o.exactOnly = atoi(C.opt("exact", "0").c_str());
   std::vector<std::string> bounds;
   forEachDoc(o, [&](const MValue& m, int sto) {
     if (C.expired()) return;
     if (!C.take()) return;
     checkRoundTripDoc(C, m, sto);
   }, &bounds);
+  if (o.exactOnly) {
+    for (auto& b : bounds) C.bound("J, M: " + b);
+    return;
+  }
   // strings on both sides of the MessagePack length boundaries
   for (size_t n : {size_t(30), size_t(31), size_t(32), size_t(33), size_t(255), size_t(256), size_t(257), size_t(65534), size_t(65535)}) {
     if (C.expired()) break;
